@@ -155,6 +155,21 @@ class Fn6(Fn):
             ast.fix_missing_locations(new)
             return self.block([new] + list(rest), env, conts, mode)
         if isinstance(s, ast.Expr) and isinstance(s.value, ast.Call) and isinstance(s.value.func, ast.Attribute) and \
+                s.value.func.attr == "remove" and isinstance(s.value.func.value, ast.Name) and s.value.func.value.id in env and \
+                isinstance(env[s.value.func.value.id].ty, tuple) and env[s.value.func.value.id].ty[0] == "list" and \
+                env[s.value.func.value.id].items is None and len(s.value.args) == 1 and not s.value.keywords:
+            # xs.remove(v): the first occurrence of v goes; ValueError (none) when v is not in xs
+            if not self.partial:
+                self.fail(s, "list.remove (may raise ValueError) in a function declared total")
+            x = s.value.func.value.id
+            xs = env[x]
+            v = self.coerce(s, self.ex(s.value.args[0], env), xs.ty[1])
+            nm = self.lname(x)
+            e2 = dict(env)
+            e2[x] = V(nm, xs.ty, (), {nm})
+            binds = list(v.binds) + [(nm, "(Py6.listRemove? %s %s)" % (xs.term, v.term), set(xs.refs) | set(v.refs))]
+            return self.with_binds(binds, self.block(rest, e2, conts, mode))
+        if isinstance(s, ast.Expr) and isinstance(s.value, ast.Call) and isinstance(s.value.func, ast.Attribute) and \
                 s.value.func.attr == "add_edges_from" and isinstance(s.value.func.value, ast.Name) and s.value.func.value.id in env and \
                 env[s.value.func.value.id].ty == NXGRAPH and len(s.value.args) == 1 and not s.value.keywords:
             x = s.value.func.value.id
@@ -296,6 +311,9 @@ class Fn6(Fn):
         if node.attr == "nodes" and isinstance(node.value, ast.Name) and node.value.id in env and env[node.value.id].ty == NXGRAPH:
             g = env[node.value.id]
             return V("(Py6.nxNodes %s)" % g.term, LIST(NAT), g.binds, g.refs)
+        if node.attr == "edges" and isinstance(node.value, ast.Name) and node.value.id in env and env[node.value.id].ty == NXGRAPH:
+            g = env[node.value.id]
+            return V("(Py6.nxEdges %s)" % g.term, LIST(TUP(NAT, NAT)), g.binds, g.refs)
         if isinstance(node.value, ast.Name) and node.value.id != "self" and (node.value.id + "." + node.attr) in env and \
                 node.value.id in env and env[node.value.id].ty == OPAQUE and node.value.id not in self.cfg.get("objattrs", {}):
             return env[node.value.id + "." + node.attr]         # an attribute of a copy of self
@@ -316,6 +334,16 @@ class Fn6(Fn):
 
     def ex_Subscript(self, node, env, want):
         sl = node.slice
+        # g.adj[n] on a networkx graph: the neighbours of n (iterating the adjacency dict gives its keys)
+        if isinstance(node.value, ast.Attribute) and node.value.attr == "adj" and isinstance(node.value.value, ast.Name) and \
+                node.value.value.id in env and env[node.value.value.id].ty == NXGRAPH and not isinstance(sl, ast.Slice):
+            g = env[node.value.value.id]
+            n = self.ex(sl, env)
+            if n.ty == OPAQUE:
+                return n
+            n = self.coerce(node, n, NAT)
+            binds, refs = _join(g, n)
+            return V("(Py6.nxNeighbors %s %s)" % (g.term, n.term), LIST(NAT), binds, refs)
         # xs[e:] on a list
         if isinstance(sl, ast.Slice) and sl.upper is None and sl.step is None and sl.lower is not None:
             base = self.ex(node.value, env)
@@ -611,6 +639,14 @@ FUNCTIONS6 += [
          doc="; `bonds` is the list of the rows of the (n, 2) array; the result is the list of the rows `(a, n, b)` in the order they are appended"),
 ]
 
+FUNCTIONS6 += [
+    # ---- batch 8, item 1: calc_dihedrals
+    dict(file="mofun/rough_uff.py", py="calc_dihedrals", lean="calcDihedrals", params=[("bonds", LIST(TUP(NAT, NAT)))], nested_loops=True,
+         partial=True, np_array_rows=True, locals={"dihedrals": LIST(LIST(NAT))}, ret=LIST(LIST(NAT)),
+         doc="; `bonds` is the list of the rows of the (n, 2) array; the result is the list of the rows `(a1, a, b, b1)` in the order they are "
+             "appended; `none` = ValueError of `list.remove` (the equivalence theorem shows it does not happen)"),
+]
+
 PRELUDE6 = r'''/- GENERATED on every run by harness/gen_code6.py from the sources of /repo — do not edit.
    Python → Lean translation, batch 6 (container operations, bond detection, term enumeration); the supported subset is
    documented in gen_code.py and gen_code6.py.  `Mofun.Generated.Py6` is the fixed prelude of the primitives this batch adds;
@@ -687,6 +723,21 @@ def nxNodes (g : NxGraph) : List Nat := dedup (g.edges.flatMap (fun e => [e.1, e
     repetition, direction ignored (a self-loop `(n, n)` puts `n` into its own list) -/
 def nxNeighbors (g : NxGraph) (n : Nat) : List Nat :=
   dedup (g.edges.filterMap (fun e => if e.1 = n then some e.2 else if e.2 = n then some e.1 else none))
+
+/-- networkx `EdgeView.__iter__` (`seen = {}; for n, nbrs in adjacency: for nbr in nbrs: if nbr not in seen: yield (n, nbr); seen[n] = 1`):
+    `seen` = the nodes already completed -/
+def nxEdgesFrom (g : NxGraph) : List Nat → List Nat → List (Nat × Nat)
+  | [], _ => []
+  | n :: rest, seen =>
+      ((nxNeighbors g n).filter (fun m => !seen.contains m)).map (fun m => (n, m)) ++ nxEdgesFrom g rest (n :: seen)
+
+/-- `list(g.edges)`: for every node `n` in the order of `g.nodes`, `(n, m)` for every neighbour `m` of `n` (in the order of `g.adj[n]`)
+    that is not a node already completed — every undirected edge once, seen from its first-listed end point; a self-loop once, as `(n, n)` -/
+def nxEdges (g : NxGraph) : List (Nat × Nat) := nxEdgesFrom g (nxNodes g) []
+
+/-- `xs.remove(v)` on a list: the first occurrence of `v` is removed; `none` = ValueError (`v` is not in `xs`) -/
+def listRemove? {α} [DecidableEq α] (xs : List α) (v : α) : Option (List α) :=
+  if xs.contains v then some (xs.erase v) else none
 
 /-- `itertools.combinations(xs, 2)`: `(xs[i], xs[j])` for `i < j`, in lexicographic order of `(i, j)` -/
 def combinations2 {α} : List α → List (α × α)
